@@ -950,6 +950,20 @@ func paramOf(fn *ssa.Function, name string) ssa.Value {
 			return p
 		}
 	}
+	// renamed since the pinned tree: the parameter at the position that name had there
+	if base, ok := baselineParams[fnDisplay(fn)]; ok {
+		shift := 0
+		if fn.Signature.Recv() != nil {
+			shift = 1
+		}
+		if len(base)+shift == len(fn.Params) {
+			for i, n := range base {
+				if n == name {
+					return fn.Params[i+shift]
+				}
+			}
+		}
+	}
 	return nil
 }
 
